@@ -47,6 +47,15 @@ RECURSION = {
  "json": "let o = 0; for (let i = 0; i < {n}; i++) o = {{ o }}; LOG(JSON.stringify(o).length > 0);",
  "toStringArr": "let a = []; for (let i = 0; i < {n}; i++) a = [a]; LOG(String(a).length);",
 }
+# natives that walk a value graph, handed a CYCLIC one (n is ignored): a catchable error or a finite result, never a dead process
+CYCLIC = {
+ "json_cyclic_array": "const a = [1]; a.push(a); try {{ LOG(JSON.stringify(a)); }} catch (e) {{ LOG(e.name); }}",
+ "json_cyclic_nested_arrays": "const a = [[]]; a[0].push([a]); try {{ LOG(JSON.stringify(a)); }} catch (e) {{ LOG(e.name); }}",
+ "json_cyclic_object": "const o = {{}}; o.self = o; try {{ LOG(JSON.stringify(o)); }} catch (e) {{ LOG(e.name); }}",
+ "json_cyclic_mixed": "const o = {{ a: [] }}; o.a.push({{ back: o }}); try {{ LOG(JSON.stringify(o, null, 2)); }} catch (e) {{ LOG(e.name); }}",
+ "export_cyclic_array": "export const cyc = [1]; cyc.push(cyc); LOG(cyc.length);",
+ "structuredClone_cyclic": "const o = {{ k: [] }}; o.k.push(o); try {{ const c = structuredClone(o); LOG(c.k[0] === c); }} catch (e) {{ LOG(e.name); }}",
+}
 SIZES = {
  "repeat": 'LOG("x".repeat({s}).length);', "padStart": 'LOG("a".padStart({s}).length);', "newArray": "LOG(new Array({s}).length);", "arrayFill": "LOG(new Array({s}).fill(0).length);",
  "arrayFrom": "LOG(Array.from({{ length: {s} }}).length);", "setLength": "const a = []; a.length = {s}; LOG(a.length);", "join": 'LOG(new Array({s}).join("x").length);',
@@ -135,6 +144,13 @@ def main(tier):
             feat = {"kind": "recursion", "path_kind": kind, "status": st.split()[0]}
             if not known(feat):
                 c.report(feat, {"kind": kind, "depth": n, "result": r}, "recursion to depth %d through %s ends the process: %s" % (n, kind, st))
+    for kind, tpl in CYCLIC.items():
+        r = isolated(exe, HDR + tpl.format(n=0) + "\n"); iso += 1
+        st = r.get("status", "?")
+        if st in ("COMPLETE", "ERROR", "HOST-STOPPED"): continue
+        feat = {"kind": "recursion", "path_kind": kind, "status": st.split()[0]}
+        if not known(feat):
+            c.report(feat, {"kind": kind, "result": r}, "a cyclic value handed to %s ends the process: %s" % (kind, st))
     for name, tpl in SIZES.items():
         for s in (SIZE_VALUES if "{s}" in tpl else [""]):
             r = isolated(exe, HDR + "try { " + tpl.format(s=s) + " } catch (e) { LOG(String(e).slice(0, 40)); }\n", timeout=40); iso += 1
